@@ -222,6 +222,28 @@ theorem isQuot_iff (P : PDiag O A) (R : Nat → Nat → Prop) (r : PDiag O A) :
   · rintro ⟨q, ⟨h1, h2, h4, h5, h6, h7⟩, h3⟩
     exact ⟨q, h1, h2, h3, h4, h5, h6, h7⟩
 
+theorem IsQuotMap.id (P : PDiag O A) : IsQuotMap P P (fun i => i) :=
+  ⟨fun _ h => h, fun k hk => ⟨k, hk, rfl⟩, fun _ _ => rfl,
+    by rw [show PEdge.mapNodes (A := A) (fun i => i) = _root_.id from funext PEdge.mapNodes_id,
+      List.map_id], by simp, by simp⟩
+
+/-- quotient maps compose (the kernel of the composite is the preimage of the second kernel) -/
+theorem IsQuotMap.comp {P r s : PDiag O A} {q p : Nat → Nat} (h1 : IsQuotMap P r q)
+    (h2 : IsQuotMap r s p) : IsQuotMap P s (fun i => p (q i)) := by
+  refine ⟨fun i hi => h2.lt _ (h1.lt i hi), ?_, ?_, ?_, ?_, ?_⟩
+  · intro k hk
+    obtain ⟨j, hj, rfl⟩ := h2.onto k hk
+    obtain ⟨i, hi, rfl⟩ := h1.onto j hj
+    exact ⟨i, hi, rfl⟩
+  · intro i hi
+    rw [h2.nodes _ (h1.lt i hi), h1.nodes i hi]
+  · rw [h2.edges, h1.edges, List.map_map]
+    apply List.map_congr_left
+    intro e _
+    exact PEdge.mapNodes_comp q p e
+  · rw [h2.ins, h1.ins, List.map_map]; rfl
+  · rw [h2.outs, h1.outs, List.map_map]; rfl
+
 theorem IsQuotMap.wf {P r : PDiag O A} {q : Nat → Nat} (hP : P.wf = true) (h : IsQuotMap P r q) :
     r.wf = true := by
   refine PDiag.wf_of_map hP h.lt h.ins h.outs ?_
@@ -308,11 +330,7 @@ theorem isQuot_iso_self {P r : PDiag O A} {R : Nat → Nat → Prop} (hP : P.wf 
     (hR : ∀ i j, i < P.n → j < P.n → EqvGen (fun a b => a < P.n ∧ b < P.n ∧ R a b) i j → i = j) :
     P ≅ r := by
   obtain ⟨q, hq, hk⟩ := (isQuot_iff P R r).1 h
-  have hid : IsQuotMap P P (fun i => i) :=
-    ⟨fun _ h => h, fun k hk => ⟨k, hk, rfl⟩, fun _ _ => rfl,
-      by rw [show PEdge.mapNodes (A := A) (fun i => i) = id from funext PEdge.mapNodes_id,
-        List.map_id], by simp, by simp⟩
-  apply iso_of_quotMaps hP hid hq
+  apply iso_of_quotMaps hP (IsQuotMap.id P) hq
   intro i j hi hj
   rw [hk i j hi hj]
   exact ⟨fun e => e ▸ EqvGen.refl _, hR i j hi hj⟩
